@@ -105,6 +105,8 @@ def rule_c02_r1(model: Model) -> RuleResult:
 
 
 class Gate:
+    nz: Normalizer
+
     def __init__(self, var: str, kind: str, node: Node, label: str, text: str):
         self.var = var
         self.kind = kind   # 'seq' | 'map' | 'weakseq'
@@ -135,6 +137,8 @@ def gates_in(model: Model, func: FuncInfo, cfg: CFG, nz: Normalizer) -> t.List[G
                 out.append(Gate(var, 'weakseq', n, lb_true, atom))
             if STRLIKE <= classes:
                 out.append(Gate(var, 'nottext', n, lb_false, atom))
+    for g in out:
+        g.nz = nz
     return out
 
 
@@ -268,10 +272,29 @@ def _base_of(sub: ast.AST) -> ast.AST:
     return sub
 
 
+_REACH: t.Dict[int, t.Any] = {}
+
+
 def _kinds_at(cfg: CFG, gts: t.List[Gate], n: Node, form: str) -> t.Set[str]:
+    """Kinds established for ``form`` at node ``n``: the gate's passing edge dominates ``n``, or the gate's outcome is implied by the
+    reaching condition of ``n`` (correlated tests, e.g. after `if not seq and not map: reject` / `if seq: ... else: <here>`)."""
     out: t.Set[str] = set()
+    reach = None
     for g in gts:
-        if g.var == form and g.node.edge(g.label) and cfg.edge_dominates(g.node, g.label, n):
+        if g.var != form or not g.node.edge(g.label):
+            continue
+        if cfg.edge_dominates(g.node, g.label, n):
+            out.add(g.kind)
+            continue
+        if reach is None:
+            key = id(cfg)
+            if key not in _REACH:
+                from ..reach import Reach
+                _REACH[key] = (cfg, Reach(cfg, g.nz))      # keep cfg alive with its entry
+            reach = _REACH[key][1]
+        lit = g.nz.literal(g.node.ast, g.node)
+        passing_truth = lit[1] if g.label == 'T' else (not lit[1])
+        if reach.implied(n, lit[0], passing_truth):
             out.add(g.kind)
     return out
 
@@ -467,6 +490,26 @@ def rule_c02_r4(model: Model) -> RuleResult:
 KIND_TEST = re.compile(r'isinstance\(VAL\b|\btype\(VAL\)|VAL is None|None is VAL|data_is_\w+\(VAL\)|VAL\.__class__')
 
 
+def _helper_tests_kind(model: Model, cls: ClassInfo, cond: str) -> bool:
+    """``cond`` is `self.<helper>(VAL)`: the helper answers True only under a test of the kind of its argument (decided on the
+    helper's outcome formula, whatever its shape: any(...), a loop with early return, nested ifs)."""
+    m = re.match(r'^(?:not )?self\.(\w+)\(VAL\)$', cond)
+    if not m:
+        return False
+    g = model.find_method(cls.qualname, m.group(1))
+    if g is None or not isinstance(g.node, ast.FunctionDef) or len(g.params) != 2:
+        return False
+    from ..outcomes import Outcomes, variables
+    try:
+        oc = Outcomes(model, g, {g.params[0]: 'self', g.params[1]: 'VAL'})
+    except AnalysisError:
+        return False
+    true_f = oc.by_value().get(('return', 'True'))
+    if true_f is None:
+        return False
+    return any(KIND_TEST.search(v) for v in variables(true_f))
+
+
 def rule_c02_r6(model: Model) -> RuleResult:
     """The raw input is handed back as the converted value only after a test of its kind (equality alone crosses kinds)."""
     r = RuleResult('C02-R6', 'a converter returns the raw input unchanged only under a test of its kind (equality alone accepts True / 1.0 for 1)',
@@ -494,7 +537,7 @@ def rule_c02_r6(model: Model) -> RuleResult:
                 r.instances += 1
                 r.analysed.add(f.qualname)
                 r.sample({'function': f.qualname, 'returns the input when': [c[:100] for c in conds]})
-                if any(KIND_TEST.search(c) for c in conds):
+                if any(KIND_TEST.search(c) for c in conds) or any(_helper_tests_kind(model, cls, c) for c in conds):
                     r.ok()
                 else:
                     r.fail(f.qualname, f"return VAL when {'; '.join(conds)[:160]}", f.loc(n.ast),
